@@ -34,6 +34,12 @@ def boundary_cases():
         out.append("t" * lim + ":i#r")
         out.append("t" * lim + ":*")
         out.append("t:" + "i" * lim + "#r")
+        # the limits count characters, not bytes: the same boundaries with a two-byte letter in the type / relation part
+        out.append("\u00e9" * max(0, lim - 2) + ":i")
+        out.append("\u00e9" + "t" * max(0, lim - 3) + ":i")
+        out.append("t:i#" + "\u00e9" * lim)
+        out.append("\u00e9" * lim + ":*")
+        out.append("\u00e9" * max(0, lim - 4) + ":i#r")
     return out
 
 
@@ -107,6 +113,12 @@ def property_failures(s, v, parts):
                     f.append((nm + "-split", f"accepted {nm} does not split into accepted type and id"))
             if not (2 <= len(s) <= 256):
                 f.append((nm + "-length", f"accepted {nm} of length {len(s)}"))
+        elif idx == OBJ and s.count(":") == 1 and 2 <= len(s) <= 256:
+            # the limit 2..256 is enforced EXACTLY (in characters): an object within it that splits into an accepted type
+            # and an accepted id is accepted
+            t, i = s.split(":")
+            if parts.get(t) and parts.get(i) and parts[t][TYPE] and parts[i][OID]:
+                f.append((nm + "-length", f"rejected {nm} of {len(s)} characters ({len(s.encode('utf-8'))} bytes) that splits into an accepted type and an accepted id"))
     if v[USET]:
         if s.count(":") != 1 or s.count("#") != 1:
             f.append(("userset-split", f"accepted userset has {s.count(':')} ':' and {s.count('#')} '#'"))
@@ -152,7 +164,7 @@ def evaluate(ctx, cases, label):
     need = set()
     for s in cases:
         v = verdict[s]
-        if v and (v[OBJ] or v[UOBJ] or v[USET] or v[WILD]):
+        if v and (v[OBJ] or v[UOBJ] or v[USET] or v[WILD] or (s.count(":") == 1 and 2 <= len(s) <= 256)):
             need |= split_parts(s)
     need = [p for p in need if p not in verdict]
     for p, r in zip(need, ctx.impl([{"op": "validate", "s": cps(p)} for p in need])):
